@@ -35,7 +35,7 @@ class C18(core.Check):
             "lengths L-1, L, L+1, 2L+3, 5L plus 41 IRs with absolute prose lengths (default sentence in prose, dashes) with each of 7 emitter kinds, word_wrap on and off, parses both artefacts and "
             "compares the projections; non-trivial = the wrapped text differs from the unwrapped text; distinct = "
             "distinct (L, case, kind)")
-    assumptions = ("types are compared with all whitespace removed, prose modulo runs of whitespace",)
+    assumptions = ("types are compared with whitespace outside string literals removed (inside quotes a run of blanks counts as one blank), prose modulo runs of whitespace",)
 
     def widths(self):
         if self.tier == "thorough":
